@@ -868,7 +868,7 @@ class Infer:
                 es: Set[T] = set()
                 for a in e.args:
                     es |= self.iter_elem_types(fn, a)
-                return frozenset([("iter", self._pick(es))])
+                return frozenset(("iter", el) for el in es) if es else frozenset([("iter", None)])
         ftypes = self.type_of(fn, f, unit)
         for t in ftypes:
             if t[0] == "class":
